@@ -5,6 +5,7 @@ package main
 import (
 	"flag"
 	"fmt"
+	"go/types"
 	"os"
 	"path/filepath"
 	"runtime/debug"
@@ -116,6 +117,20 @@ func main() {
 				}
 			}
 			fmt.Println("variable-index proven", vp, "unproven", vu)
+			return
+		}
+		if *dump == "ta" {
+			c := &Ctx{P: p, R: newReport("dump", "quick", 0)}
+			for _, fn := range c.moduleFuncs() {
+				eachInstr(fn, func(ins ssa.Instruction) {
+					ta, ok := ins.(*ssa.TypeAssert)
+					if !ok || ta.CommaOk {
+						return
+					}
+					src := exprOfValue(ta.X)
+					fmt.Printf("%-50s %-40s .(%s)  %s\n", funcKey(fn), src, types.TypeString(ta.AssertedType, func(*types.Package) string { return "" }), p.pos(ta.Pos()))
+				})
+			}
 			return
 		}
 		if *dump == "prefs" {
